@@ -219,8 +219,9 @@ def _experimenter_factory(case):
 PARTIALLY_SERIALIZABLE_KINDS = ['qr', 'sgrid', 'eagle', 'nsga2', 'cmaes']
 # designers whose whole stream state (seed included) is persisted by dump(): a designer
 # rebuilt and restored at every request continues the very stream of one kept in RAM
-# (NSGA-II / CMA-ES document that their RNG is not persisted)
-FULLY_PERSISTED_KINDS = ['qr', 'sgrid']
+# (Eagle dumps its generator, pool and initial designer; NSGA-II / CMA-ES document that
+# their RNG is not persisted)
+FULLY_PERSISTED_KINDS = ['qr', 'sgrid', 'eagle']
 
 
 def deterministic_experimenter(case):
